@@ -240,6 +240,18 @@ def run_batch(items, timeout=1800):
     try:
         p = subprocess.run([sys.executable, '-W', 'ignore', '-m', 'symx.replay', '--batch', path],
                            cwd=ROOT, env=env, capture_output=True, text=True, timeout=timeout)
+        if p.returncode < 0:
+            # the real code killed the replay process (e.g. SIGSEGV inside a numba-compiled kernel): isolate the
+            # item(s) responsible; a counterexample whose replay crashes the interpreter has reproduced
+            if len(items) > 1:
+                h = len(items) // 2
+                return run_batch(items[:h], timeout) + run_batch(items[h:], timeout)
+            it = items[0]
+            if it['kind'] == 'witness':
+                return [dict(match=False, why=f'replay process died with signal {-p.returncode}')]
+            return [dict(reproduced=True, mode='crash', detail=dict(info=it.get('info'), status='crash',
+                         exc=f'the unpatched code terminated the replay process with signal {-p.returncode}',
+                         observations=[], assume_failed=[]))]
         if p.returncode != 0:
             raise RuntimeError(f'replay process failed:\n{p.stdout[-2000:]}\n{p.stderr[-4000:]}')
         with open(path + '.out') as f:
